@@ -22,6 +22,33 @@ def lifeUpd (f : Nat → Nat) : Ev → Nat → Nat
 
 def lifeOf (tr : List Ev) : Nat → Nat := tr.foldl lifeUpd (fun _ => 0)
 
+/-! `lifeOf` is determined by the last start/stop event of the module
+    (`PB.C01.lifeOf_eq_two_iff`, `PB.C01.lifeOf_eq_zero_iff`). -/
+
+/-- `e` is a begin/end event of the start or stop routine of module `d`. -/
+def touches (d : Nat) : Ev → Bool
+  | .beg .start m => m == d
+  | .fin .start m _ => m == d
+  | .beg .stop m => m == d
+  | .fin .stop m _ => m == d
+  | _ => false
+
+/-- The last start/stop event of `d` in the history. -/
+def lastTouch (d : Nat) : List Ev → Option Ev
+  | [] => none
+  | e :: es => match lastTouch d es with
+    | some x => some x
+    | none => if touches d e then some e else none
+
+def lifeCodeOf : Ev → Nat
+  | .beg .start _ => 1
+  | .fin .start _ true => 2
+  | .fin .start _ false => 0
+  | .beg .stop _ => 3
+  | .fin .stop _ _ => 0
+  | _ => 0
+
+
 /-- How often the prep routine of `m` has begun / has ended. -/
 def prepBegun (tr : List Ev) (m : Nat) : Nat := tr.countP (fun e => e == .beg .prep m)
 def prepEnded (tr : List Ev) (m : Nat) : Nat := tr.countP (fun e => e == .fin .prep m true || e == .fin .prep m false)
